@@ -198,6 +198,10 @@ pub uninterp spec fn as_ref_spec<S: core::marker::PointeeSized, T: core::marker:
 pub proof fn axiom_as_ref_slice(v: &[u8])
     ensures as_ref_spec::<&[u8], [u8]>(&v)@ == v@,
 { admit(); }
+/// ASSUMED (std): `<str as AsRef<[u8]>>::as_ref` is `as_bytes`
+pub proof fn axiom_as_ref_str(v: &str)
+    ensures as_ref_spec::<&str, [u8]>(&v)@ == vstd::string::StringSliceAdditionalSpecFns::spec_bytes(v),
+{ admit(); }
 /// the bytes an `S: AsRef<[u8]>` argument stands for
 pub open spec fn bytes_of<S>(s: S) -> Seq<u8> { as_ref_spec::<S, [u8]>(&s)@ }
 
